@@ -322,8 +322,8 @@ class BluePrint:
                     dur=seg_dict["durations"],
                 )
             bp_sum = bp_sum + bp_seg
-        bp_sum.marker1 = blue_dict["marker1_abs"]
-        bp_sum.marker2 = blue_dict["marker2_abs"]
+        bp_sum.marker1 = [tuple(mark) for mark in blue_dict["marker1_abs"]]
+        bp_sum.marker2 = [tuple(mark) for mark in blue_dict["marker2_abs"]]
         listmarker1 = blue_dict["marker1_rel"]
         listmarker2 = blue_dict["marker2_rel"]
         bp_sum._segmark1 = [tuple(mark) for mark in listmarker1]
